@@ -25,13 +25,14 @@
 //! We do not check whether the parameters to chdir, chroot and the priviledge dropping functions
 //! are suitable to create a safe chroot jail.
 
-use crate::analysis::graph::Node;
+use crate::analysis::graph::{Edge, Node};
 use crate::intermediate_representation::*;
 use crate::prelude::*;
 use crate::utils::graph_utils::is_sink_call_reachable_from_source_call;
 use crate::utils::log::{CweWarning, LogMessage};
 use crate::utils::symbol_utils::find_symbol;
 use crate::CweModule;
+use petgraph::visit::EdgeRef;
 
 /// The module name and version
 pub static CWE_MODULE: CweModule = CweModule {
@@ -144,15 +145,17 @@ pub fn check_cwe(
                 if let Some(chdir_tid) =
                     find_symbol(&project.program, "chdir").map(|(tid, _)| tid.clone())
                 {
-                    if graph.neighbors(node).count() > 1 {
-                        panic!("Malformed Control flow graph: More than one edge for extern function call")
-                    }
                     // If chdir is called after chroot, we assume a secure chroot jail.
                     // A chroot call without a return site has no node to continue the search from.
+                    // Note that the block may also end with a conditional jump in front of the call,
+                    // so we have to select the outgoing edge belonging to the chroot call.
                     let chdir_is_reachable =
                         graph
-                            .neighbors(node)
-                            .next()
+                            .edges(node)
+                            .find(|edge| {
+                                matches!(edge.weight(), Edge::ExternCallStub(call) if call.tid == callsite_tid)
+                            })
+                            .map(|edge| edge.target())
                             .is_some_and(|chroot_return_to_node| {
                                 is_sink_call_reachable_from_source_call(
                                     graph,
